@@ -41,6 +41,7 @@ type c16Vec struct {
 	valname  bool
 	hidden   bool
 	required bool
+	onoff    bool // U's type is a bool-kinded Unmarshaler (takes an argument, so value name and choices are shown)
 }
 
 type c16Decl struct {
@@ -50,6 +51,9 @@ type c16Decl struct {
 
 func c16Build(v c16Vec, placement int) *c16Decl {
 	u := &decl.Opt{Field: "U", Type: decl.TString}
+	if v.onoff {
+		u.Type = decl.TOnOff
+	}
 	if v.names != 1 {
 		u.Short = "u"
 	}
@@ -61,17 +65,17 @@ func c16Build(v c16Vec, placement int) *c16Decl {
 	}
 	switch v.def {
 	case 1:
-		u.Defaults = []string{"UDFLTX"}
+		u.Defaults = []string{"UDFLTX%H"}
 	case 2:
-		u.Defaults, u.DefaultMask = []string{"UDFLTX"}, "UMASKX"
+		u.Defaults, u.DefaultMask = []string{"UDFLTX%H"}, "UMASKX<0-100%>"
 	case 3:
-		u.Defaults, u.DefaultMask = []string{"UDFLTX"}, "-"
+		u.Defaults, u.DefaultMask = []string{"UDFLTX%H"}, "-"
 	}
 	if v.env {
 		u.Env = "UENVX"
 	}
 	if v.choices {
-		u.Choices = []string{"UDFLTX", "UCHBX"}
+		u.Choices = []string{"UDFLTX%H", "UCHBX"}
 		if v.def == 0 {
 			u.Choices = []string{"UCHAX", "UCHBX"}
 		}
@@ -80,7 +84,7 @@ func c16Build(v c16Vec, placement int) *c16Decl {
 		u.ValueName = "UVALX"
 	}
 	if v.hidden {
-		u.Hidden = "yes"
+		u.Hidden = []string{"yes", "False", "NO"}[(v.names+v.def)%3] // any non-falsy spelling hides (only "", false, no, 0 do not)
 	}
 	if v.required {
 		u.Required = "yes"
@@ -135,6 +139,7 @@ var c16ManShortRe = regexp.MustCompile(`\\-u\\fR`)
 func init() {
 	body := func(c *explore.Ctx) {
 		v := c16Vec{names: c.Choose(3), desc: c.Bool(), def: c.Choose(4), env: c.Bool(), choices: c.Bool(), valname: c.Bool(), hidden: c.Bool(), required: c.Bool()}
+		v.onoff = v.def == 0 && c.Bool()
 		placement := c.Choose(c16NPlacements)
 		ci := c.Choose(len(c16Chains))
 		gen := c.Choose(3)       // 0 WriteHelp after a parse selecting the chain, 1 the ErrHelp text, 2 man page
@@ -285,12 +290,12 @@ func init() {
 				if v.desc {
 					switch v.def {
 					case 1:
-						if !has("UDFLTX") {
-							miss("default", "UDFLTX")
+						if !has("UDFLTX%H") {
+							miss("default", "UDFLTX%H")
 						}
 					case 2:
-						if !has("UMASKX") {
-							miss("default-mask", "UMASKX")
+						if !has("UMASKX<0-100%>") {
+							miss("default-mask", "UMASKX<0-100%>")
 						}
 					}
 					if v.env && !has(u.EnvNS) {
@@ -306,8 +311,8 @@ func init() {
 					}
 				}
 			} else {
-				if v.def == 1 && !has("UDFLTX") {
-					miss("default", "UDFLTX")
+				if v.def == 1 && !has("UDFLTX%H") {
+					miss("default", "UDFLTX%H")
 				}
 				if v.def == 0 && v.env && !has(u.EnvNS) {
 					miss("env", u.EnvNS)
@@ -381,7 +386,7 @@ func init() {
 		Level:      "exploration",
 		ShardDepth: 4,
 		Body:       body,
-		Rule: "option under test with every attribute vector {short only, long only, both} x description? x default {none, tag, tag+mask, tag+mask '-'} x env? x choices? x value-name? x hidden? x required? (768 vectors) " +
+		Rule: "option under test with every attribute vector {short only, long only, both} x description? x default {none, tag, tag+mask, tag+mask '-'} x env? x choices? x value-name? x hidden? (spelled yes / False / NO) x required? (768 vectors; defaults, masks and descriptions contain per-cent signs; without a default also as a bool-kinded Unmarshaler type) " +
 			"x 10 placements (parser group, namespaced subgroup with env-namespace, hidden subgroup, command, command's group, hidden command, sub-subcommand, sibling command, subgroup nested in the env-namespaced subgroup without / with its own env-namespace) x 5 active chains (none, add, add deep, rm, the hidden command) " +
 			"x {WriteHelp after a parse that selects the chain, the ErrHelp text of --help at that chain, WriteManPage} (+ a variant where one command is hidden and another un-hidden through the public Hidden field after a first help/man rendering on the same parser); every string is a unique marker; oracle: a visible option's markers (names, value name, choices, description, default or mask, env) are present and its description sits on its row, " +
 			"nothing of a hidden option / hidden group / hidden or inactive command appears, a masked default's real value never appears; the fixed part of the declaration (bystander options, described positionals, commands with aliases, hidden command and group) is checked on every leaf; " +
